@@ -2,9 +2,11 @@
    Operations are instantiated by what the harness observes of them: the interned encoded form
    (JSON of the serial op without its parent field) and the port counts the reader's contract
    (hugr-core/src/ops.rs) assigns to that encoded form.  Metadata dicts are interned; 0 = {}. *)
-From Coq Require Import List Bool Arith NArith.
+From Coq Require Import List Bool Arith NArith ZArith.
 Import ListNotations.
+From HV Require Import lib.PyDict model.BiMapM model.Graph.
 From HV Require Export lib.Harness model.SerialHugr spec.SerialHugrS.
+From HV Require Import model.HugrHist spec.HugrHistS.
 
 Record opinfo := { o_code : N; o_ord : bool; o_vin : nat; o_sin : nat; o_vout : nat; o_sout : nat }.
 Definition o_v (o : opinfo) (d : dir) := match d with DIn => o_vin o | DOut => o_vout o end.
@@ -63,10 +65,48 @@ Record rt := {
   r_schema : bool                    (* the document validates against the published strict schema *)
 }.
 Definition Rt := Build_rt.
+(* ---- mutation histories (model/HugrHist.v over the store of model/Graph.v) ---- *)
+Definition zst := Graph.hugr opinfo N.
+Definition hc := hcmd opinfo N.
+Definition HAdd (o : opinfo) (p : option nat) (k : option Z) (m : N) : hc := HB (AddNode o p k m).
+Definition HLink (a : nat) (x : Z) (b : nat) (y : Z) : hc := HB (AddLink (a, x) (b, y)).
+Definition HOrd (a b : nat) : hc := HB (AddOrder a b).
+Definition HDelL (a : nat) (x : Z) (b : nat) (y : Z) : hc := HB (DelLink (a, x) (b, y)).
+Definition HDelN (n : nat) : hc := HB (DelNode n).
+Definition HMeta (n : nat) (m : N) : hc := HSetMeta n m.
+(* insert_hugr of Hugr(o) + basic calls *)
+Definition bc := bcmd opinfo N.
+Definition BAdd (o : opinfo) (p : option nat) (k : option Z) (m : N) : bc := AddNode o p k m.
+Definition BLink (a : nat) (x : Z) (b : nat) (y : Z) : bc := AddLink (a, x) (b, y).
+Definition BOrd (a b : nat) : bc := AddOrder a b.
+Definition BDelL (a : nat) (x : Z) (b : nat) (y : Z) : bc := DelLink (a, x) (b, y).
+Definition BDelN (n : nat) : bc := DelNode n.
+Definition HIns (o : opinfo) (src : list bc) (p : option nat) : hc := HInsert o 0%N src p.
+(* a store state rebuilt from the public queries of a HUGR without deleted nodes: the node table, and the
+   forward dictionary in links() order with the sub-offsets linked_ports shows *)
+Definition Gd (o : opinfo) (p : option nat) (i k : Z) (ch : list nat) (m : N) : node_data opinfo N :=
+  {| nd_op := o; nd_parent := p; nd_inps := i; nd_outs := k; nd_children := ch; nd_meta := m |}.
+Definition Sl (a : nat) (x : Z) (i : nat) (b : nat) (y : Z) (j : nat) : subport * subport := (((a, x), i), ((b, y), j)).
+Definition St (ns : list (option (node_data opinfo N))) (fw : list (subport * subport)) (root : nat) : zst :=
+  {| nodes := ns; links := {| fwd := fw; bck := map (fun kv => (snd kv, fst kv)) fw |}; free := []; root := root |}.
+Definition Hinit (o : opinfo) : zst := init o 0%N.
+(* which calls returned normally, in the model *)
+Fixpoint returns (h : zst) (cs : list hc) : list bool :=
+  match cs with
+  | [] => []
+  | c :: r => res_eqb (snd (hstep h c)) Ok :: returns (fst (hstep h c)) r
+  end.
+
 Inductive case :=
 | CHugr (r : rt)
 | CPkg (mods : list rt) (same_as_modules : bool) (schema : bool)   (* Package([...]) document *)
-| CExt (roundtrip : bool) (schema : bool).                         (* Extension document *)
+| CExt (roundtrip : bool) (schema : bool)                          (* Extension document *)
+(* Hugr(root_op) followed by a history of public-API calls; which calls returned normally; whether the harness
+   expects the premise hist_ok to hold (every generated call is inside the guard: it holds unless a node is
+   added after a deletion); the final HUGR *)
+| CHist (o : opinfo) (cs : list hc) (rets : list bool) (noreuse : bool) (r : rt)
+(* a history applied to the HUGR a builder program produced (start = its store state as the queries show it) *)
+| CMut (st : zst) (cs : list hc) (rets : list bool) (r : rt).
 
 (* ---- correspondence: the model computes what the implementation produced ---- *)
 Definition corr_rt (r : rt) : bool :=
@@ -80,11 +120,26 @@ Definition corr_rt (r : rt) : bool :=
       | _, _ => false
       end
   end.
+(* the store model run on the history shows exactly the HUGR the implementation's queries show (node table
+   with holes, operations, parents, ordered children, metadata, reported port counts, root, links() in
+   order) and the same calls return normally *)
+(* (deleted nodes at the end of the node table are not visible to the public queries: the dump ends at the last
+   live node) *)
+Fixpoint strip_dead (l : list (option nodeT)) : list (option nodeT) :=
+  match l with
+  | [] => []
+  | x :: r => match x, strip_dead r with None, [] => [] | _, r' => x :: r' end
+  end.
+Definition trim (h : hugrT) : hugrT := Hg (strip_dead (h_nodes h)) (h_root h) (h_links h).
+Definition corr_hist (st : zst) (cs : list hc) (rets : list bool) (r : rt) : bool :=
+  hugr_eqb (trim (view (hrun st cs))) (r_h r) && list_eqb Bool.eqb (returns st cs) rets.
 Definition corr (c : case) : bool :=
   match c with
   | CHugr r => corr_rt r
   | CPkg mods _ _ => forallb (fun r => option_eqb serial_eqb (M_to_serial (r_h r)) (r_doc r)) mods
   | CExt _ _ => true
+  | CHist o cs rets nr r => corr_rt r && corr_hist (Hinit o) cs rets r && Bool.eqb (hist_ok (Hinit o) cs) nr
+  | CMut st cs rets r => corr_rt r && corr_hist st cs rets r
   end.
 
 (* ---- monitors: the specification on the implementation's own observations ---- *)
@@ -95,8 +150,22 @@ Definition mon2_rt (r : rt) : bool :=
   | Some s, Some (h2, Some s2) => serial_eqb s s2 && r_json_same r && r_pyd r && S_iso (r_h r) h2
   | _, _ => false
   end.
+(* the conclusions of the history theorems of props/C02.v, on the implementation's own observations: after a
+   history inside the guard without index reuse every call returned normally and the HUGR the queries show
+   is index-ordered; if moreover links were only added on ports the operations have, it satisfies the guard *)
+Definition G_guard (h : hugrT) : bool := guard_b o_v o_s o_ord h.
+Definition mon_hist (o : opinfo) (cs : list hc) (rets : list bool) (r : rt) : bool :=
+  if hist_ok (Hinit o) cs
+  then forallb (fun b => b) rets && (length rets =? length cs) && index_ordered_b (r_h r) &&
+       (negb (hist_on_ports o_v o_s o_ord (Hinit o) cs) || G_guard (r_h r))
+  else true.
 Definition mon2 (c : case) : bool :=
-  match c with CHugr r => mon2_rt r | _ => true end.
+  match c with
+  | CHugr r => mon2_rt r
+  | CHist o cs rets _ r => mon2_rt r && mon_hist o cs rets r
+  | CMut _ _ _ r => mon2_rt r
+  | _ => true
+  end.
 (* C03: schema-valid, index-sane, nodes listed in index order with the root first, ports addressed
    by the reader's contract *)
 Definition mon3_rt (r : rt) : bool :=
@@ -109,11 +178,8 @@ Definition mon3_rt (r : rt) : bool :=
   end.
 Definition mon3 (c : case) : bool :=
   match c with
-  | CHugr r => mon3_rt r
+  | CHugr r | CHist _ _ _ _ r | CMut _ _ _ r => mon3_rt r
   | CPkg mods same schema => same && schema && forallb mon3_rt mods
   | CExt rtrip schema => rtrip && schema
   end.
 Definition mon := mon2.
-
-(* guards, for statistics and for the harness' classification *)
-Definition G_guard (h : hugrT) : bool := guard_b o_v o_s o_ord h.
